@@ -111,7 +111,10 @@ func runC08(c *Ctx) {
 					// pending they are outside the statements ("once no write is pending"); see C10
 					continue
 				}
-				prog := Prog{Cfg: cfg, Setup: setup, Cold: cold, Threads: th, Ticks: ticks}
+				prog := Prog{Cfg: cfg, Setup: setup, Cold: cold, Threads: th, Ticks: ticks, Atomic: os.Getenv("C08_ATOMIC") != ""}
+				if os.Getenv("C08_BOUND") != "" {
+					fmt.Sscan(os.Getenv("C08_BOUND"), &bound)
+				}
 				progID := fmt.Sprintf("cfg=%s cold=%v prog=%d %s", cfg, cold, pi, jsonOf(th))
 				reportedLin := false
 				outcomes := map[string]bool{}
@@ -194,7 +197,7 @@ func runC08(c *Ctx) {
 		return
 	}
 	c.Meta(map[string]interface{}{
-		"rule": "programs: every (reader or search refinement, writer) pair, subsets of writer/writer and reader/reader pairs, and two-call threads, from a warm and from a freshly opened handle, in sync, cached and async (with the flusher) configurations; every schedule with at most the stated deviations runs on the real code built with -race under the cooperative scheduler (hand-off invisible to the detector, lock grants mirrored on real mutexes). Oracles per execution: no race report whose access is made by package sod (reports on shim memory and during thread unwinding are ignored and counted), no thread panic, and the recorded call/return history plus the final All() is explained by some sequential order of the calls on the reference that respects real-time order (brute force over linear extensions). Non-trivial = programs with more than one distinct outcome over their schedules.",
+		"rule":    "programs: every (reader or search refinement, writer) pair, subsets of writer/writer and reader/reader pairs, and two-call threads, from a warm and from a freshly opened handle, in sync, cached and async (with the flusher) configurations; every schedule with at most the stated deviations runs on the real code built with -race under the cooperative scheduler (hand-off invisible to the detector, lock grants mirrored on real mutexes). Oracles per execution: no race report whose access is made by package sod (reports on shim memory and during thread unwinding are ignored and counted), no thread panic, and the recorded call/return history plus the final All() is explained by some sequential order of the calls on the reference that respects real-time order (brute force over linear extensions). Non-trivial = programs with more than one distinct outcome over their schedules.",
 		"configs": cfgs, "programs_per_config_and_start": len(programs),
 		"assumptions": []string{"each call of the public surface is one atomic step, except InsertOrUpdateBulk (one step per chunk, documented)", "scheduling points at synchronisation operations are complete only for race-free executions; races are decided by the detector inside each enumerated schedule"},
 	})
